@@ -191,6 +191,56 @@ def gen_index(quick):
     return cases
 
 
+def big_index_cases(quick=False):
+    """arrays large enough that index * stride does not fit the index type (u8 index >= 64 into [100]i32, u16 index >= 16384
+    into [20000]i32, rows of 64 bytes): the in-range element must still be exactly that element"""
+    cases = []
+    for ity, n, vals in (("u8", 100, [0, 31, 32, 63, 64, 65, 99, 100, 127, 128, 255]),
+                         ("u16", 20000, [0, 8191, 8192, 16383, 16384, 19999, 20000, 32768, 65535]),
+                         ("u32", 20000, [0, 16384, 19999, 20000, 70000]),
+                         ("usize", 100, [0, 64, 99, 100])):
+        for tname, mul in ((("i32", 3), ("u8", 1)) if quick else (("i32", 3), ("i64", 5), ("u8", 1))):
+            for form in (("arr", "slice") if quick else ("arr", "slice", "ptrmut")):
+                for access in ("read", "write"):
+                    for v in vals:
+                        body = [f"a : [{n}]{tname}; k := 0; while k < {n} {{ a[k] = {tname}.(k % 50 * {mul} + 1); k += 1; }}"]
+                        body.append(idx_decl(ity, v))
+                        place = {"arr": "a[ix]", "slice": "s[ix]", "ptrmut": "p[ix]"}[form]
+                        if form == "slice":
+                            body.append(f"s : []{tname} = a;")
+                        elif form == "ptrmut":
+                            body.append("p := ^mut a;")
+                        body.append("pr(-1);")
+                        out = [-1]
+                        model = [(k % 50 * mul + 1) for k in range(n)]
+                        if access == "read":
+                            body.append(f"pr(i64.({place}));")
+                            if v < n:
+                                out.append(model[v])
+                        else:
+                            body.append(f"{place} = {tname}.(77);")
+                            if v < n:
+                                model[v] = 77
+                        body.append("pr(-2);")
+                        if v < n:
+                            out.append(-2)
+                            body.append(f"t : i64 = 0; k = 0; while k < {n} {{ t = t + i64.(a[k]) * i64.(k + 1); k += 1; }} pr(t);")
+                            out.append(sum(x * (k + 1) for k, x in enumerate(model)))
+                            cases.append(PCase(f"bigindex/{form}/{tname}/{n}/{access}/{ity}/{v}", "\n".join(body), fmt_leaves(out)))
+                        else:
+                            cases.append(PCase(f"bigindex/{form}/{tname}/{n}/{access}/{ity}/{v}", "\n".join(body), fmt_leaves(out),
+                                               fault="index out of bounds", never="-2 "))
+    # rows of 64 bytes indexed with a u8
+    for v in (0, 3, 4, 5, 6, 200):
+        body = ["aa : [6][16]i32; r := 0; while r < 6 { c := 0; while c < 16 { aa[r][c] = i32.(r * 100 + c); c += 1; } r += 1; }",
+                idx_decl("u8", v), "pa := ^aa;", "pr(-1);", "pr(i64.(pa[ix][3])); pr(i64.(aa[ix][15]));", "pr(-2);"]
+        if v < 6:
+            cases.append(PCase(f"bigindex/rows/u8/{v}", "\n".join(body), fmt_leaves([-1, v * 100 + 3, v * 100 + 15, -2])))
+        else:
+            cases.append(PCase(f"bigindex/rows/u8/{v}", "\n".join(body), fmt_leaves([-1]), fault="index out of bounds", never="-2 "))
+    return cases
+
+
 # ----------------------------------------------------------------------------------------------
 # unwrap
 
@@ -333,7 +383,7 @@ def unwrap_ptr_case(placement, held, req):
 def run(tier, seed):
     started = time.time()
     quick = tier == "quick"
-    idx_cases = gen_index(quick)
+    idx_cases = gen_index(quick) + big_index_cases(quick)
     uw_cases, sums = gen_unwrap(quick)
     elem_types = [U8, I32, I64, S12]
     decl_tys = [S12, M5] + sums
@@ -364,7 +414,7 @@ def run(tier, seed):
                 "runtime case is executed in its own process (dispatcher executable selected by CASE)",
         "bounds_completed": {"container_forms": len(FORMS), "element_types": 4, "lengths": "1..4", "index_types": list(IDX_TYPES),
                              "index_values": "0..n+4 plus the boundaries 2^k-1, 2^k of each index type (u128: 2^64+k)",
-                             "literal_indexes": "0..n+1", "sum_types": len(sums) + 1, "unwrap_placements": 5,
+                             "literal_indexes": "0..n+1", "big_arrays": "[100]T / [20000]T / [6][16]i32 with u8, u16, u32 indexes whose product with the stride exceeds the index type", "sum_types": len(sums) + 1, "unwrap_placements": 5,
                              "runtime_cases": len(pcases), "expected_faults": faults, "compile_time_rejections": len(rcases)},
         "distinct_outcomes": len(dr.outcomes),
         "compilations": dr.compiles + rr.compiles,
